@@ -31,6 +31,10 @@ CLAIMS = {
   "Deductive, over an abstract access view (per signature an arbitrary sequence of access records with the real access type and two ghost attributes: covers the whole variable / executed unconditionally): CallTreeUtils.get_input_parameters records every variable whose incoming value can be read (a reading access not preceded by an unconditional whole-variable write) outside the recorded known class, and get_output_parameters records every variable with a writing access; neither removes entries nor touches the other list. SingleVariableAccessInfo.is_written_first/is_written and VariablesAccessInfo.is_written are verified inlined. Known finding (open): a first access that is a partial or conditional write hides a later read of the incoming value.",
   "Assumed: the access records are what reference_accesses produces (C11 link, not built); all_signatures/__getitem__/add_read/add_write as engine hooks. NOT under contract: _resolve_calls_and_unknowns / non-local symbol collection and the ExtractNode plumbing (seeded changes C12a/C12b are missed for this reason).",
   TECH + "; loop invariants over an abstract access view with ghost attributes"),
+ "C16": ("proof",
+  "Deductive, over the view names/tags (dict models): SymbolTable.add, remove, swap, rename_symbol, next_available_name and lookup are verified on their real bodies: the representation invariant 'every key is the lower-cased name of its symbol' (names unique case-insensitively) is preserved; each raises exactly under its conditions ('iff') and then leaves keys, names and tags unchanged; a dry-run rename returns normally exactly when the real rename is accepted; next_available_name's result is, lower-cased, in neither this table, the enclosing scopes (unless shadowing) nor the other table; lookup returns the innermost entry. merge and its helpers are covered only by a bounded run-time contract on the real code (labelled bounded). Known finding (open): a rejected merge has already specialised unresolved symbols.",
+  "Assumed: get_symbols()/get_tags() merged scope view (attempted proof withdrawn: two obligations undecided), parent_symbol_table, CodeBlock name lists, Symbol interface predicates as ghost booleans, str.lower uninterpreted. NOT proved: merge / check_for_clashes / _add_symbols_from_table / _handle_symbol_clash / new_symbol / deep_copy; termination of the candidate-name loop.",
+  TECH + "; bounded run-time contract as stand-in for merge"),
 }
 
 NA = {
